@@ -230,6 +230,30 @@ class World:
             a.peer, b.peer = b, a
             return a, b
 
+        def fake_wait(object_list, timeout=None):
+            """multiprocessing.connection.wait over fake connections: returns every connection that is readable at
+            the moment the caller is scheduled (which ones are is decided by the explored schedule)"""
+            objs = list(object_list)
+            if not all(isinstance(c, FConn) for c in objs):
+                return w._real_wait(objs, timeout)
+            S = w.S
+
+            def readable(c):
+                return bool(c.inbox) or c.peer.owner_finished()
+
+            S.point("wait", enabled=(lambda: True) if timeout is not None else (lambda: any(readable(c) for c in objs)),
+                    ready=lambda: any(readable(c) for c in objs))
+            ready = [c for c in objs if readable(c)]
+            if ready:
+                S.note("wait", bytes([i for i, c in enumerate(objs) if c in ready]))
+            else:
+                S.note_idle()
+            return ready
+
+        import multiprocessing.connection as _mpc
+
+        self._real_wait = _mpc.wait
+        self.wait = fake_wait
         self.Conn, self.Event, self.Process, self.Pipe = FConn, FEvent, FProcess, FPipe
 
     def fork_state(self, child):
@@ -290,14 +314,27 @@ def patched_parallel(world, seed=1):
     """Install the fakes (and a seeded `choice`) as module globals of inference.mcmc.parallel."""
     import inference.mcmc.parallel as PAR
 
+    import multiprocessing.connection as mpc
+
     saved = {k: getattr(PAR, k) for k in ("Process", "Pipe", "Event", "choice")}
+    had_wait = hasattr(PAR, "wait")
+    saved_wait = getattr(PAR, "wait", None)
     PAR.Process, PAR.Pipe, PAR.Event = world.Process, world.Pipe, world.Event
     PAR.choice = random.Random(seed).choice
+    # `wait` is not used by the library today; it is owned anyway (as a module global of parallel.py, if present, and
+    # in multiprocessing.connection) so that code selecting on several pipes is explored instead of crashing on fakes
+    real_wait = mpc.wait
+    mpc.wait = world.wait
+    if had_wait:
+        PAR.wait = world.wait
     try:
         yield PAR
     finally:
         for k, v in saved.items():
             setattr(PAR, k, v)
+        mpc.wait = real_wait
+        if had_wait:
+            PAR.wait = saved_wait
 
 
 def explore_schedules(parent_fn, capacity=None, max_states=200000, seed=1):
@@ -367,7 +404,9 @@ def run_serial_schedule(parent_fn, capacity=None, seed=1, policy="parent-first")
                 if not en:
                     break
                 # avoid spinning on idle polls: prefer threads that are not idle-polling
-                busy = [e for e in en if S.T[e].get("ready", lambda: True)()] or en
+                busy = [e for e in en if S.T[e].get("ready", lambda: True)()]
+                if not busy:
+                    break  # only idle pollers are left: nothing can make progress any more
                 S._switch_to(busy[0] if policy == "parent-first" else busy[-1])
                 n += 1
                 if n > 100000:
